@@ -15,6 +15,25 @@ import numpy as np
 import z3
 
 
+import threading
+
+
+def zcheck(solver, timeout_ms, *assumptions):
+    """solver.check with a hard wall-clock cap (z3's own timeout is not always honoured in
+    nonlinear tactics): a watchdog thread interrupts the context; the answer is then `unknown`."""
+    solver.set('timeout', int(timeout_ms))
+    timer = threading.Timer(timeout_ms / 1000.0 + 1.0, z3.main_ctx().interrupt)
+    timer.daemon = True
+    timer.start()
+    try:
+        try:
+            return solver.check(*assumptions)
+        except z3.Z3Exception:
+            return z3.unknown
+    finally:
+        timer.cancel()
+
+
 class HarnessError(Exception):
     """The machinery (proxy, stub, recogniser) cannot carry this run."""
 
@@ -62,10 +81,9 @@ class Ctx:
         the solver (exact, because the dropped, variable-disjoint part is satisfiable)."""
         rel = cone(self.cons, t)
         s = z3.Solver()
-        s.set('timeout', self.branch_timeout_ms)
         s.add(*rel)
         s.add(t)
-        r = s.check()
+        r = zcheck(s, self.branch_timeout_ms)
         if r == z3.unknown:
             self.unknown_branches += 1
             return True
@@ -630,11 +648,10 @@ def find_exp(arg_t):
             return SymReal(v)
     for a, v in c.exps:
         s = z3.Solver()
-        s.set('timeout', 5000)
         for grp in (c.assumptions, c.pc, c.axioms):
             s.add(*grp)
         s.add(a != arg_t)
-        if s.check() == z3.unsat:
+        if zcheck(s, 5000) == z3.unsat:
             return SymReal(v)
     return None
 
@@ -834,14 +851,16 @@ def explore(harness, max_paths=64, branch_timeout_ms=4000):
         pre = stack.pop()
         c = CTX = Ctx(forced=pre, branch_timeout_ms=branch_timeout_ms)
         try:
+            dead = False
             try:
                 res, exc = harness(), None
             except Infeasible:
-                continue
+                dead = True       # assumptions made after a fork killed this path; siblings still explored
             except PathAbort as e:
                 aborted += 1
                 res, exc = None, e
-            out.append(Path(c, res, exc))
+            if not dead:
+                out.append(Path(c, res, exc))
             for i in range(len(pre), len(c.decisions)):
                 d, forked = c.decisions[i]
                 if forked:
